@@ -54,15 +54,16 @@ func (r *c15run) tagOf(class, salt int) uint32 {
 }
 
 type c15run struct {
-	m        *Mix
-	o        *sim.Outcome
-	other    *ref.Party // a second client instance of the peer's account
-	bound    uint32
-	ownKnown bool
-	hits     int
-	nText    int
-	sentR    []string
-	gotA     []string
+	m           *Mix
+	o           *sim.Outcome
+	other       *ref.Party // a second client instance of the peer's account
+	bound       uint32
+	ownKnown    bool
+	lastRefused bool
+	hits        int
+	nText       int
+	sentR       []string
+	gotA        []string
 }
 
 func malformedTags(st, rt uint32) bool { return st < 0x100 || (rt > 0 && rt < 0x100) }
@@ -92,6 +93,7 @@ func (r *c15run) deliverHostile(wire []byte, st, rt uint32, what string) {
 	}
 	inFlight := len(r.m.QtoR)
 	c := r.m.AReceive(wire)
+	r.lastRefused = c.Err != nil
 	// replies to hostile messages never reach the genuine peer in this world (what was in flight before stays)
 	r.m.QtoR = r.m.QtoR[:inFlight]
 	after := v.C.GetTheirInstanceTag()
@@ -119,6 +121,11 @@ func (r *c15run) deliverHostile(wire []byte, st, rt uint32, what string) {
 		if v.C.IsEncrypted() {
 			r.hits++
 		}
+	case before == 0 && c.Err != nil && after != 0:
+		// valid tags, nobody bound yet, and the message was refused (its body is not what its type says, or cut short):
+		// only a well-formed message tells the conversation who its peer is
+		r.o.Fail("C15/bound-by-refused-message", "%s with valid tags (sender %#x, receiver %#x) was refused (%v) and yet bound the conversation to peer instance %#x", what, st, rt, c.Err, after)
+		return
 	case before == 0 && rt != 0 && rt != own:
 		// valid tags, addressed to another instance, nothing bound yet: binding is left unconstrained,
 		// but the message itself is not for us
@@ -189,11 +196,16 @@ func runC15(sc *C15Script) *sim.Outcome {
 				raw[2] = []byte{ref.TypeDHCommit, ref.TypeDHKey, ref.TypeRevealSig, ref.TypeSignature}[st.M%4]
 				wire = ref.Armor(raw)
 			}
+			if st.M >= 4 {
+				// ... cut short behind the header, or in the middle of the body
+				raw, _ := ref.Dearmor(wire)
+				wire = ref.Armor(raw[:11+(st.M*7)%(len(raw)-11)])
+			}
 			r.checkExtract(wire, true, stag, rtag)
 			r.deliverHostile(wire, stag, rtag, "a key-exchange message")
 			if !established {
 				hostileBefore = true
-				if !malformedTags(stag, rtag) {
+				if !malformedTags(stag, rtag) && !r.lastRefused {
 					// a well-formed message of some other instance may legitimately bind the conversation to that instance
 					mayBind = true
 				}
@@ -424,7 +436,7 @@ func TestProp_C15_Tags(t *testing.T) {
 		}
 		n := rapid.IntRange(1, 14).Draw(rt, "nsteps")
 		for i := 0; i < n; i++ {
-			sc.Steps = append(sc.Steps, TagStep{K: rapid.SampledFrom(kinds).Draw(rt, "k"), ST: rapid.IntRange(0, 6).Draw(rt, "st"), RT: rapid.IntRange(0, 6).Draw(rt, "rt"), M: rapid.IntRange(0, 3).Draw(rt, "m")})
+			sc.Steps = append(sc.Steps, TagStep{K: rapid.SampledFrom(kinds).Draw(rt, "k"), ST: rapid.IntRange(0, 6).Draw(rt, "st"), RT: rapid.IntRange(0, 6).Draw(rt, "rt"), M: rapid.IntRange(0, 7).Draw(rt, "m")})
 		}
 		sim.Judge(rt, "C15tags", sc)
 	})
@@ -439,6 +451,8 @@ func TestProp_C15_Matrix(t *testing.T) {
 			for _, shape := range [][]TagStep{
 				{{K: "hostile", ST: st, RT: rt}, {K: "handshake"}, {K: "text"}},
 				{{K: "hostile", ST: st, RT: rt, M: 1}, {K: "handshake", M: 1}, {K: "text"}},
+				{{K: "hostile", ST: st, RT: rt, M: 4}, {K: "handshake"}, {K: "text"}},
+				{{K: "hostile", ST: st, RT: rt, M: 6}, {K: "hostile", ST: st, RT: rt, M: 5}, {K: "handshake", M: 1}, {K: "text"}},
 				{{K: "frag", ST: st, RT: rt}, {K: "handshake"}, {K: "text"}},
 				{{K: "handshake"}, {K: "fake", ST: st, RT: rt}, {K: "text"}, {K: "vsend"}},
 				{{K: "handshake", M: 1}, {K: "frag", ST: st, RT: rt}, {K: "text"}},
